@@ -157,6 +157,7 @@ func checkC03(c *Check) {
 	}
 	c03BodyReader(c)
 	c03NewSessionNeverWaits(c)
+	c03BodyFailedWriters(c, "R10")
 	c03LMTPCommit(c)
 	c03FanOut(c)
 	c03CommitOrder(c)
